@@ -157,11 +157,22 @@ def _call_named(name: str):
     return lambda call: (dotted(call.func) or "").split(".")[-1] == name
 
 
+def _norm_label(lab):
+    """(test, value) with leading ``not`` stripped and the value flipped accordingly"""
+    t, v = lab[0], lab[1]
+    while isinstance(t, ast.UnaryOp) and isinstance(t.op, ast.Not):
+        t, v = t.operand, (not v if isinstance(v, bool) else v)
+    return t, v
+
+
 def _guarded_by_false_edge(g: CFG, target_pred, test_pred) -> tuple[bool, list[int]]:
     """Every path ENTRY ->* (node satisfying target_pred) takes an edge labelled
     (test, False) with test_pred(test)."""
     def blocked(a, b, lab):
-        return lab is not None and lab[1] is False and test_pred(lab[0])
+        if lab is None:
+            return False
+        t, v = _norm_label(lab)
+        return v is False and test_pred(t)
 
     reach = reachable_avoiding_edges(g, blocked)
     hits = [n for n in reach if n not in (ENTRY, EXIT, RAISE) and target_pred(n)]
@@ -185,15 +196,22 @@ def r6b(ctx: Ctx) -> list[Ob]:
             out.append(ok("R6b", f.qualname, "memoised", f"compile_pipeline({sc}) is reached only when is_compiled({sc}) is false", f.loc))
         else:
             out.append(viol("R6b", f.qualname, "memoised", f"compile_pipeline can be reached without the is_compiled({sc}) test being false: compiling the same symbolic circuit again builds a second compiled object", f.loc))
-    # true branch returns the registered object
-    true_rets = []
-    for n, s in g.stmts.items():
-        if isinstance(s, ast.If) and test_is_compiled(s.test):
-            for b in s.body:
-                if isinstance(b, ast.Return):
-                    true_rets.append(b)
-    if true_rets and all(isinstance(r.value, ast.Call) and (dotted(r.value.func) or "").split(".")[-1] == "get_compiled_circuit" and unparse(r.value.args[0]) == sc for r in true_rets):
+    # the already-compiled world: returns reachable when is_compiled(sc) is true and not when it is false
+    def blk(val):
+        def b(a, bb, lab):
+            if lab is None:
+                return False
+            t, v = _norm_label(lab)
+            return test_is_compiled(t) and v is val
+        return b
+
+    when_true = reachable_avoiding_edges(g, blk(False))
+    when_false = reachable_avoiding_edges(g, blk(True))
+    true_rets = [g.stmts[n] for n in when_true - when_false if n not in (ENTRY, EXIT, RAISE) and isinstance(g.stmts[n], ast.Return)]
+    if true_rets and all(isinstance(r.value, ast.Call) and (dotted(r.value.func) or "").split(".")[-1] == "get_compiled_circuit" and r.value.args and unparse(r.value.args[0]) == sc for r in true_rets):
         out.append(ok("R6b", f.qualname, "returns-registered", "the memoised branch returns get_compiled_circuit(sc)", f.loc))
+    elif not true_rets:
+        out.append(unres("R6b", f.qualname, "returns-registered", "no return statement specific to the already-compiled branch was found", f.loc))
     else:
         out.append(viol("R6b", f.qualname, "returns-registered", "the already-compiled branch does not return the registered compiled circuit of sc", f.loc))
 
